@@ -43,6 +43,22 @@ type PageData struct {
 	hidden string
 }
 
+// RichBase and Rich are root data with the struct features whose treatment differs between Lookup and EnvMap:
+// an embedded struct (promoted fields), a nil pointer to a struct, a struct-typed field, a field tagged json:"-".
+type RichBase struct {
+	ID   int `json:"id"`
+	Kind string
+}
+
+type Rich struct {
+	RichBase
+	Title string   `json:"title"`
+	Ptr   *Profile `json:"ptr"`
+	Sub   Profile  `json:"sub"`
+	Skip  string   `json:"-"`
+	N     int      `json:"n"`
+}
+
 // BuildData builds the data value for an operation. Every string carries the
 // operation's tag so that a value surfacing in another operation's output is attributable.
 func BuildData(d DataSpec) any {
@@ -65,6 +81,14 @@ func BuildData(d DataSpec) any {
 		hidden: "hidden-" + tag,
 	}
 	switch d.Shape {
+	case "rich":
+		return Rich{RichBase: RichBase{ID: 7 + d.Variant, Kind: "kind-" + tag}, Title: "Title " + tag, Sub: Profile{City: "sub-" + tag, Zip: 7}, Skip: "skip-" + tag, N: 3}
+	case "richptr":
+		return &Rich{RichBase: RichBase{ID: 7 + d.Variant, Kind: "kind-" + tag}, Title: "Title " + tag, Sub: Profile{City: "sub-" + tag, Zip: 7}, Skip: "skip-" + tag, N: 3}
+	case "strmap":
+		return map[string]string{"a": "sa-" + tag, "title": "st-" + tag}
+	case "intmap":
+		return map[int]string{1: "one", 2: "two"}
 	case "hostile":
 		// wrong types in the positions the templates use as strings, lists, numbers and maps
 		hv := []any{42, "notalist-" + tag, nil, 3.5, []any{1, "x"}, map[string]any{"k": "v"}, true, pd, &pd, []string{"a"}, map[string]string{"a": "b"}, [2]int{1, 2}}
